@@ -378,6 +378,8 @@ func wxSerialiseTo(sb *strings.Builder, j *wJ, ws string, depth int) error {
 		sb.WriteString("null")
 	case "raw":
 		sb.WriteString(wireAnyJSON)
+	case "rawempty":
+		sb.WriteString("{}")
 	case "str", "num", "bool":
 		jt, text, err := wireLexeme(j.Kind, j.A, j.F)
 		if err != nil {
